@@ -69,6 +69,9 @@ type Step struct {
 	// PingInc identifies the entry object the answered liveness check was started for (0: not known);
 	// compare with VerifNodeSnap.Inc of the entry that carries the id now.
 	PingInc uintptr
+	// SeqAheadNoRecord: the answer announced a higher sequence number than the record pinged, and the record request
+	// that follows fails (PingReply with Alive): the liveness check itself was answered.
+	SeqAheadNoRecord bool
 }
 
 func (s Step) String() string {
@@ -82,6 +85,9 @@ func (s Step) String() string {
 		}
 		if s.NewRec != nil {
 			x += " new-record " + s.NewRec.String()
+		}
+		if s.SeqAheadNoRecord {
+			x += " (sequence ahead, record request fails)"
 		}
 		return fmt.Sprintf("#%d ping-reply %x.. %s", s.N, s.Pinged[:3], x)
 	case TrackOK, TrackFail:
@@ -236,9 +242,25 @@ func (d *Driver) PendingPing(wait time.Duration) (*pingEvent, bool) {
 // the table has processed the response (observable change of the pinged node,
 // or a bounded number of loop iterations when the node is no longer an entry).
 func (d *Driver) AnswerPing(ev *pingEvent, alive bool, newRec *enode.Node) (handled bool) {
+	return d.AnswerPingSeq(ev, alive, newRec, false)
+}
+
+// ForgetENR makes the next record request for id fail.
+func (d *Driver) ForgetENR(id enode.ID) {
+	d.mu.Lock()
+	delete(d.enrPlan, id)
+	d.mu.Unlock()
+}
+
+// AnswerPingSeq: with seqAhead the answer carries a sequence number above the pinged record's although no newer
+// record will be served.
+func (d *Driver) AnswerPingSeq(ev *pingEvent, alive bool, newRec *enode.Node, seqAhead bool) (handled bool) {
 	id := ev.node.ID()
 	before := d.nodeState(id)
 	seq := ev.node.Seq()
+	if seqAhead {
+		seq += 3
+	}
 	if newRec != nil {
 		d.mu.Lock()
 		d.enrPlan[id] = newRec
